@@ -177,8 +177,8 @@ func viewStr(v telem.TimeRange) string {
 	return fmt.Sprintf("[%s,%s)", tsStr(int64(v.Start)), tsStr(int64(v.End)))
 }
 
-// layoutClass summarises where the view sits, for signatures that stay stable across
-// seeds: how many domains the view touches and whether it straddles a gap.
+// check is the oracle for one command: it compares what the iterator reports after the
+// command (View, Value, Valid, Error) with the reference model.
 func (w *walker) check(c cmd, r stepResult) {
 	if r.Panic != "" {
 		w.trace = append(w.trace, fmt.Sprintf("%s -> PANIC %s", c, r.Panic))
@@ -542,7 +542,10 @@ func traverse(h *harness.H, layer string, c int, l *layout, k cesium.ChannelKey,
 // with one seek at the point the step starts from and the same step is issued. If that
 // fresh iterator reports the same view and returns exactly the stored samples in it,
 // the walked iterator's domain cursor was stale ("stale-domain-cursor"); if the fresh
-// one is wrong too the defect is in the view/offset arithmetic itself.
+// one is wrong too the defect is in the view/offset arithmetic itself
+// ("wrong-from-fresh-seek"). When the start point cannot be reached with a single seek
+// the fallback only says whether a fresh one-step read of exactly the reported view
+// returns the stored samples ("differs-from-fresh-range-read") or not.
 func (w *walker) classify(c cmd, prev, walkedView telem.TimeRange) string {
 	u, ok := w.l.db.VerifUnary(w.key)
 	if !ok {
@@ -587,15 +590,15 @@ func (w *walker) classify(c cmd, prev, walkedView telem.TimeRange) string {
 			r0 := runUnary(it, cmd{Op: "first"})
 			if r0.Panic == "" && !r0.OK {
 				if len(want) == 0 {
-					return "stale-domain-cursor"
+					return "differs-from-fresh-range-read"
 				}
-				return "wrong-from-fresh-seek"
+				return "fresh-range-read-wrong-too"
 			}
 			r := runUnary(it, cmd{Op: "next", Span: int64(telem.TimeSpanMax)})
 			if r.Panic == "" && r.Err == nil && bytes.Equal(r.data(), want) {
-				return "stale-domain-cursor"
+				return "differs-from-fresh-range-read"
 			}
-			return "wrong-from-fresh-seek"
+			return "fresh-range-read-wrong-too"
 		}
 	}
 	return "value-differs-from-view:history-undetermined"
